@@ -243,10 +243,23 @@ def _int_bounds_atom(pc: List[Term], v: Term) -> Tuple[Optional[int], Optional[i
     return lo, hi
 
 
+DEADLINE: Optional[float] = None     # set by check.run_property: monotonic time after which the analysis gives up (exit 2)
+
+
+def check_deadline(what: str = "") -> None:
+    if DEADLINE is not None:
+        import time as _time
+        if _time.monotonic() > DEADLINE:
+            from .model import AnalysisError
+            raise AnalysisError(f"analysis budget exceeded (SA_MAX_TOTAL_SECONDS for one property{': ' + what if what else ''}): the guards grew too large to handle")
+
+
 def flat_pc(pc: List[Term]) -> List[Term]:
     """The conjuncts of a path condition, closed under unit resolution: a disjunction all of whose alternatives but one
     are contradicted by the other conjuncts contributes that alternative ((not p or q) and p gives q)."""
     from .interp import neg
+
+    check_deadline("closing a path condition")
 
     out: List[Term] = []
     have: set = set()
